@@ -432,8 +432,30 @@ def main(check_id, tier, replay_path=None):
                            "first_unshrunk_case": b["case"], "seed": seed_base, "tier": tier}, fh, indent=1, default=str)
             violations.append((key, rel, b["count"]))
 
+    # coverage-guided fuzzing campaigns (atheris), thorough tier by default
+    fuzz_ev = {}
+    if hasattr(mod, "fuzz_targets") and (tier == "thorough" or os.environ.get("VERIF_FUZZ") == "1"):
+        from . import fuzzing
+
+        if not fuzzing.available():
+            fuzz_ev = {"skipped": "atheris could not be provided offline"}
+        else:
+            for tgt in mod.fuzz_targets():
+                runs = tgt["runs_thorough"] if tier == "thorough" else tgt["runs_quick"]
+                r = fuzzing.campaign(prop, tgt["clause"], tgt["decoder"], runs, seed_base, seeds=tgt.get("seeds", ()), max_len=tgt.get("max_len", 64))
+                fuzz_ev[tgt["clause"] + ":" + tgt["decoder"]] = {"executions": r["executions"], "corpus": r["corpus"], "crashes": len(r["crashes"]),
+                                                                 "note": r["note"][:200]}
+                for bucket, case, hexdata in r["crashes"]:
+                    os.makedirs(os.path.join(env.ROOT, "replays", prop), exist_ok=True)
+                    h = hashlib.blake2b((bucket + hexdata).encode(), digest_size=5).hexdigest()
+                    rel = os.path.join("replays", prop, f"fuzz-{tgt['clause']}-{h}.json")
+                    with open(os.path.join(env.ROOT, rel), "w") as fh:
+                        json.dump({"property": prop, "clause": tgt["clause"], "bucket": bucket, "case": case, "fuzz_input_hex": hexdata,
+                                   "seed": seed_base, "tier": tier, "found_by": "atheris"}, fh, indent=1, default=str)
+                    violations.append((bucket, rel, 1))
+
     # evidence
-    evaluations = sum(m["cases"] for m in per_clause.values())
+    evaluations = sum(m["cases"] for m in per_clause.values()) + sum(v.get("executions", 0) for v in fuzz_ev.values() if isinstance(v, dict))
     distinct = sum(len(m["nontrivial"]) for m in per_clause.values())
     samples = []
     for cname, m in per_clause.items():
@@ -453,6 +475,7 @@ def main(check_id, tier, replay_path=None):
                                    "buckets": {k: b["count"] for k, b in m["buckets"].items()}}
                            for cname, m in per_clause.items()},
             "excluded_known": dict(excluded),
+            "fuzzing": fuzz_ev,
             "exhaustive": bool(getattr(mod, "EXHAUSTIVE", False)),
         },
         "assumptions": list(getattr(mod, "ASSUMPTIONS", [])),
